@@ -18,7 +18,7 @@ from ..core import rule, AnalysisError
 from ..engine import rx, cfg as cfgmod, flow
 from ..engine import pattern as P
 from ..engine.facts import dotted, const, src, walk_func, str_value, enclosing_stmt, ancestors
-from .common import calls, stmt_nodes, contains, pn, access_paths, assigned_from, branch_paths, resolve, resolve_deep, sym_cases, lexer_side_scanner, scan_loop_of
+from .common import calls, stmt_nodes, contains, pn, access_paths, assigned_from, branch_paths, resolve, resolve_deep, sym_cases, lexer_side_scanner, scan_loop_of, facts_at
 
 CURSOR = ("match_position", "lineno", "matched_lineno", "matched_charpos")
 
@@ -442,6 +442,22 @@ def verbatim_flow(ctx):
     ctx.check(seen_kinds == {"plain", "filtered"}, "visitExpression:both", db.where(ve), "visitExpression writes only %s" % sorted(seen_kinds), "a plain and a filtered write")
     cf = [c for c in calls(ve, "self.create_filter_callable")]
     ctx.check(bool(cf) and (P.has(cf[0].args[1], "'%%s' %% %s.text" % nd) or src(cf[0].args[1]) == nd + ".text"), "visitExpression.target", db.where(ve), "the filter pipeline is not applied to node.text", "filters wrap node.text")
+    # <%text> swallows everything up to </%text> - but only when the tag was not closed on the spot (<%text/>)
+    mts = db.func("lexer.Lexer.match_tag_start")
+    scans = [c_ for f_ in db.with_helpers(mts) for c_ in walk_func(f_) if isinstance(c_, ast.Call) and (dotted(c_.func) or "").endswith("self.match") and c_.args and "</%text>" in (str_value(c_.args[0]) or "").replace("\\", "")]
+    ctx.require(scans, "match_tag_start: the scan for </%text> was not found (anchor)")
+    grp = [s_ for s_ in walk_func(mts) if isinstance(s_, ast.Assign) and isinstance(s_.targets[0], ast.Tuple) and len(s_.targets[0].elts) == 3 and P.matches(s_.value, "$m.groups()")]
+    isend = src(grp[0].targets[0].elts[2]) if grp else None
+    for sc_ in scans:
+        owner = getattr(sc_, "_func", None)
+        fa = facts_at(sc_, owner) if owner is not None else set()
+        if owner is not mts:
+            # the scan lives in a helper: the condition is on the call of the helper
+            fa = set()
+            for c_ in walk_func(mts):
+                if isinstance(c_, ast.Call) and isinstance(c_.func, ast.Attribute) and c_.func.attr == owner.name:
+                    fa |= facts_at(c_, mts)
+        ctx.check(isend is not None and (isend, False) in fa, "text-tag.not-self-closed", db.where(sc_), "the body of <%%text> is scanned up to </%%text> also when the tag is closed on the spot (<%%text/>): everything up to the next </%%text> - directives included - is swallowed as literal text" , "only an open <%text> swallows its body")
     # the CRLF normalisations are the only edits of expression/attribute text
     me = db.func("lexer.Lexer.match_expression")
     reps = [c for c in walk_func(me) if isinstance(c, ast.Call) and isinstance(c.func, ast.Attribute) and c.func.attr in ("replace", "strip", "lstrip", "rstrip", "lower", "upper")]
